@@ -282,13 +282,13 @@ class MuxWorld(World):
             if op.get("mode") == "rw":
                 yield dict(op, mode="r")
                 yield dict(op, mode="w")
-            if any(op.get("data") or []):
+            if any(d not in (0, 1) for d in (op.get("data") or [])):
                 yield dict(op, data=[1] * len(op["data"]))
         elif op.get("k") == "raw":
             if op.get("r") and op.get("w"):
                 yield dict(op, r=0)
                 yield dict(op, w=0)
-            if op.get("data"):
+            if op.get("data") not in (0, 1, None):
                 yield dict(op, data=1)
         elif op.get("k") == "idle" and op.get("n", 1) > 1:
             yield dict(op, n=1)
